@@ -381,6 +381,7 @@ OwnershipReport ownership_monitor(const CmdResult& r)
 {
 	OwnershipReport o;
 	unsigned io_max = 0, readers = 0, writers = 0;
+	uint32_t block_max = 0xffffffffu;
 	// per (worker, slot)
 	struct WS { int running = 0; int done_since_sched = 0; int main_owns = 0; int pending_write = 0; int ran_since_wnext = 0; };
 	std::map<std::pair<int, int>, WS> ws;
@@ -393,6 +394,7 @@ OwnershipReport ownership_monitor(const CmdResult& r)
 		switch (e.kind) {
 		case EV_IO_START:
 			io_max = (unsigned)e.off; readers = (unsigned)e.len; writers = (unsigned)e.res;
+			block_max = (uint32_t)(e.aux & 0xffffffffu);
 			o.io_max = io_max;
 			o.threaded = io_max > 1;
 			o.had_events = true;
@@ -420,7 +422,8 @@ OwnershipReport ownership_monitor(const CmdResult& r)
 				compute_slot = main_slot;
 				if ((int64_t)e.len <= last_pos && !(e.len >= 0xffffffffu)) o.breaches.push_back(strf("io_read_next returned position %lld after %lld: not in increasing order", (long long)e.len, (long long)last_pos));
 				last_pos = (int64_t)e.len;
-				o.positions.push_back((uint32_t)e.len);
+				// the position past the end terminates the caller's loop: not a processed stripe
+				if ((uint64_t)e.len < block_max) o.positions.push_back((uint32_t)e.len);
 				if (o.threaded) {
 					// the parity buffers of this slot are about to be recomputed: no writer may still use them
 					for (unsigned w = readers; w < readers + writers; ++w) {
